@@ -215,151 +215,52 @@ def _attr_reads(node, base):
 
 
 def cache_rules(run, db):
-    # ---- MatrixDFTExecutor
-    ci = db.cls(FT + 'MatrixDFTExecutor')
-    init = db.method(ci, '__init__')
-    memos = [t.attr for st in init.node.body if isinstance(st, ast.Assign) and isinstance(st.value, ast.Dict) and not st.value.keys
-             for t in st.targets if isinstance(t, ast.Attribute)]
-    if len(memos) < 2:
-        raise AnalysisError('MatrixDFTExecutor memo dicts not found')
-    keyf = db.method(ci, '_key')
-    fill = db.method(ci, '_setup_bases')
-    if keyf is None or fill is None:
-        raise AnalysisError('MatrixDFTExecutor._key/_setup_bases not found')
-    rets = [n for n in walk_no_nested(keyf.node) if isinstance(n, ast.Return)]
-    if len(rets) != 1 or not isinstance(rets[0].value, ast.Tuple):
-        raise AnalysisError('_key does not return one literal tuple')
-    keytuple = rets[0].value
-    keynames = _names(keytuple)
-    bare = {e.id for e in keytuple.elts if isinstance(e, ast.Name)}
-    for prm in keyf.params[1:]:
-        run.check(prm in bare, 'C01.cache', keyf.qual, 'key component ' + prm, 'key contains %s' % prm,
-                  'cache key omits the argument %s: two calls differing only in it share one cached basis' % prm, keyf.loc(rets[0]))
-    rebinds = [n for n in walk_no_nested(keyf.node) if (isinstance(n, ast.Assign) and any(isinstance(x, ast.Name) and x.id in keyf.params and isinstance(x.ctx, ast.Store) for t in n.targets for x in ast.walk(t)))
-               or (isinstance(n, ast.AugAssign) and isinstance(n.target, ast.Name) and n.target.id in keyf.params)]
-    lossy = [n for n in rebinds if any(isinstance(c, ast.Call) and ast.unparse(c.func).split('.')[-1] in ('round', 'around', 'rint', 'floor', 'ceil', 'int', 'trunc', 'float16', 'float32') for c in ast.walk(n))]
-    run.check(not lossy, 'C01.cache', keyf.qual, 'key values', 'the key holds the geometry as given (the bases are built from the key, so a rounded key is a rounded transform)',
-              '`%s` rounds/truncates an argument before it enters the key: the bases and the normalisation are built from the key, so the transform is computed for the rounded geometry '
-              '(Q = 4/3 becomes 1.3333: dft2 followed by idft2 no longer returns the input)' % (norm_stmt(lossy[0]) if lossy else ''), keyf.loc(lossy[0]) if lossy else keyf.loc(rets[0]))
-    # global configuration read in the fill slice must be part of the key (or every writer clears the memo)
-    cfg_reads = _attr_reads(fill.node, 'config')
-    key_cfg = _attr_reads(keyf.node, 'config')
-    for attr in sorted(cfg_reads):
-        run.check(attr in key_cfg, 'C01.cache', keyf.qual, 'key component config.' + attr,
-                  'config.%s read while filling the cache is part of the key' % attr,
-                  'config.%s is read while the basis matrices are built (%s) but is not part of the cache key: after the precision is '
-                  'switched, stale matrices of the old precision are returned' % (attr, fill.qual), keyf.loc(rets[0]))
-    # all memo dicts stored on the same paths, and cleared together
-    stores = {}
-    for n in walk_no_nested(fill.node):
-        if isinstance(n, ast.Assign) and isinstance(n.targets[0], ast.Subscript) and isinstance(n.targets[0].value, ast.Attribute) \
-                and ast.unparse(n.targets[0].value.value) == 'self':
-            stores.setdefault(n.targets[0].value.attr, []).append(ast.unparse(n.targets[0].slice))
-    # the memos of the forward bases are the dicts _setup_bases fills; further dict attributes (derived caches) are covered by
-    # the generic memo-completeness rule (fresh_rules)
-    memos = [m for m in memos if m in stores]
-    if len(memos) < 2:
-        raise AnalysisError('MatrixDFTExecutor._setup_bases fills fewer than two memo dicts')
-    for m in memos:
-        run.check(stores.get(m) == ['key'], 'C01.cache', fill.qual, 'store self.%s[key]' % m, 'memo %s filled under the key' % m,
-                  'memo %s is not stored exactly once under `key` (stores: %s)' % (m, stores.get(m)), fill.loc())
-    clr = db.method(ci, 'clear')
-    cleared = {t.attr for st in clr.node.body if isinstance(st, ast.Assign) for t in st.targets if isinstance(t, ast.Attribute)} if clr else set()
-    run.check(set(memos) <= cleared, 'C01.cache', ci.qual + '.clear', 'clear', 'clear() resets every memo', 'clear() leaves %s populated' % (set(memos) - cleared), clr.loc() if clr else '')
-    # users: key built with the right direction flag, setup before lookup, no in-place op on cached values
-    for meth, fwd in (('dft2', True), ('idft2', False), ('dft2_backprop', True), ('idft2_backprop', False)):
-        fi = db.method(ci, meth)
-        if fi is None:
-            raise AnalysisError('MatrixDFTExecutor.%s not found' % meth)
-        kc = [n for n in walk_no_nested(fi.node) if isinstance(n, ast.Call) and ast.unparse(n.func) == 'self._key']
-        sc = [n for n in walk_no_nested(fi.node) if isinstance(n, ast.Call) and ast.unparse(n.func) == 'self._setup_bases']
-        if not sc:
-            # the setup may sit in a helper method that receives the key
-            for n in walk_no_nested(fi.node):
-                if isinstance(n, ast.Call) and isinstance(n.func, ast.Attribute) and isinstance(n.func.value, ast.Name) and n.func.value.id == 'self' \
-                        and any(isinstance(a, ast.Name) and a.id == 'key' for a in n.args):
-                    h = db.method(ci, n.func.attr)
-                    if h is not None:
-                        sc += [m for m in walk_no_nested(h.node) if isinstance(m, ast.Call) and ast.unparse(m.func) == 'self._setup_bases']
-        ok = len(kc) == 1 and len(sc) == 1
-        run.check(ok, 'C01.cache', fi.qual, 'key/setup', 'one key, one setup call', 'key/setup protocol not followed', fi.loc())
-        if ok:
-            kw = {k.arg: k.value for k in kc[0].keywords}
-            fv = kw.get('fwd')
-            run.check(isinstance(fv, ast.Constant) and fv.value is fwd, 'C01.cache', fi.qual, 'fwd flag', 'key direction flag is %s' % fwd,
-                      'direction flag in the key of %s is %s, expected %s' % (meth, ast.unparse(fv) if fv is not None else None, fwd), fi.loc(kc[0]))
-        cached = set()
-        for n in walk_no_nested(fi.node):
-            if isinstance(n, ast.Assign) and any(isinstance(s, ast.Subscript) and ast.unparse(s.value) in ['self.' + m for m in memos]
-                                                 for s in ast.walk(n.value)):
-                cached |= {x.id for t in n.targets for x in ast.walk(t) if isinstance(x, ast.Name)}
-        for n in walk_no_nested(fi.node):
-            if isinstance(n, ast.AugAssign) and _names(n.target) & cached:
-                run.finding('C01.cache', fi.qual, norm_stmt(n), 'in-place operation on a cached basis matrix: later calls with the same key see the modified matrix', fi.loc(n))
-            if isinstance(n, ast.Assign) and isinstance(n.targets[0], ast.Subscript) and _names(n.targets[0].value) & cached:
-                run.finding('C01.cache', fi.qual, norm_stmt(n), 'store into a cached basis matrix', fi.loc(n))
-        run.ok('C01.cache', fi.qual, 'no in-place mutation of cached bases in %s' % meth)
-
-    # ---- ChirpZTransformExecutor
-    cz = db.cls(FT + 'ChirpZTransformExecutor')
-    f = db.method(cz, 'czt2')
-    fill = db.method(cz, '_setup_bases')
-    # the key is whatever local czt2 hands to the fill routine
-    knames = {c.args[0].id for c in walk_no_nested(f.node) if isinstance(c, ast.Call) and ast.unparse(c.func) == 'self._setup_bases'
-              and len(c.args) == 1 and isinstance(c.args[0], ast.Name)}
-    keyas = [n for n in walk_no_nested(f.node) if isinstance(n, ast.Assign) and isinstance(n.targets[0], ast.Name) and n.targets[0].id in knames]
-    if len(keyas) != 1 or not isinstance(keyas[0].value, ast.Tuple):
-        raise AnalysisError('czt2: key tuple not found')
-    # def-use closure of the key over the locals of czt2
-    defs = {}
-    for n in walk_no_nested(f.node):
-        if isinstance(n, ast.Assign):
-            for t in n.targets:
-                for x in ast.walk(t):
-                    if isinstance(x, ast.Name):
-                        defs.setdefault(x.id, set()).update(_names(n.value))
-    closure = set(_names(keyas[0].value))
-    work = list(closure)
-    while work:
-        x = work.pop()
-        for y in defs.get(x, ()):
-            if y not in closure:
-                closure.add(y)
-                work.append(y)
-    for prm in f.params[1:]:
-        run.check(prm in closure, 'C01.cache', f.qual, 'key component ' + prm, 'chirp-Z key depends on %s' % prm,
-                  'chirp-Z cache key does not depend on the argument %s' % prm, f.loc(keyas[0]))
-    dtn = {t.id for n in walk_no_nested(f.node) if isinstance(n, ast.Assign) and isinstance(n.value, ast.Attribute) and n.value.attr == 'dtype'
-           for t in n.targets if isinstance(t, ast.Name)}
-    has_dtype = bool(dtn & _names(keyas[0].value)) or any(isinstance(x, ast.Attribute) and x.attr == 'dtype' for x in ast.walk(keyas[0].value))
-    run.check(has_dtype, 'C01.cache', f.qual, 'key component dtype', 'chirp-Z key contains the dtype', 'chirp-Z key omits the dtype', f.loc(keyas[0]))
-    # fill slice reads nothing but the key
-    unp = [n for n in walk_no_nested(fill.node) if isinstance(n, ast.Assign) and isinstance(n.value, ast.Name) and n.value.id == fill.params[1]]
-    bound = set(fill.params)
-    for n in walk_no_nested(fill.node):
-        if isinstance(n, ast.Assign):
-            for t in n.targets:
-                bound |= {x.id for x in ast.walk(t) if isinstance(x, ast.Name)}
-    free = set()
-    for n in walk_no_nested(fill.node):
-        if isinstance(n, ast.Name) and isinstance(n.ctx, ast.Load) and n.id not in bound:
-            free.add(n.id)
-    allowed = {'self', 'KeyError', 'np', '_prepare_czt_basis', 'fft'}
-    run.check(free <= allowed and unp, 'C01.cache', fill.qual, 'fill inputs', 'chirp components are built from the key only',
-              'chirp components depend on %s which is not part of the key' % sorted(free - allowed), fill.loc())
-    cfg = _attr_reads(db.func(FT + '_prepare_czt_basis').node, 'config') | _attr_reads(fill.node, 'config')
-    run.check(not cfg, 'C01.cache', fill.qual, 'config reads', 'no global configuration read while filling the chirp cache',
-              'config.%s read while filling the chirp cache but not in its key' % sorted(cfg), fill.loc())
-    cached = set()
-    for n in walk_no_nested(f.node):
-        if isinstance(n, ast.Assign) and 'self.components[' in ast.unparse(n.value):
-            cached |= {x.id for t in n.targets for x in ast.walk(t) if isinstance(x, ast.Name)}
-    for n in walk_no_nested(f.node):
-        if isinstance(n, ast.AugAssign) and _names(n.target) & cached:
-            run.finding('C01.cache', f.qual, norm_stmt(n), 'in-place operation on a cached chirp vector', f.loc(n))
-    run.ok('C01.cache', f.qual, 'no in-place mutation of cached chirp vectors')
-    clr = db.method(cz, 'clear')
-    run.check(clr is not None and 'self.components' in ast.unparse(clr.node), 'C01.cache', cz.qual + '.clear', 'clear', 'clear() resets the chirp cache', 'clear() does not reset components', '')
+    """Memo (cache) keys of the two transform executors, decided by interpretation in the DEP domain (sa/domains/dep.py):
+    every public entry point is run with each argument an atom on a fresh executor; whatever is stored into a memo dict --
+    and every test taken inside the function that stores it -- may depend only on inputs that the key it is stored under
+    *determines* (injectively: a rounded or truncated argument does not determine the argument); every memo read finds
+    its key; no array held by a memo is operated on in place.  Helper methods, the shape of the fill (try/except, early
+    return, `not in`) and the names of locals are irrelevant: calls are followed."""
+    from ..domains.dep import DepDomain, memo_audit
+    table = [(FT + 'MatrixDFTExecutor', [('dft2', ('ary', 'Q', 'samples_out', 'shift')), ('idft2', ('ary', 'Q', 'samples_out', 'shift')),
+                                          ('dft2_backprop', ('fbar', 'Q', 'samples_in', 'shift')), ('idft2_backprop', ('fbar', 'Q', 'samples_out', 'shift'))]),
+             (FT + 'ChirpZTransformExecutor', [('czt2', ('ary', 'Q', 'samples_out', 'shift')), ('iczt2', ('ary', 'Q', 'samples_out', 'shift'))])]
+    for cq, meths in table:
+        ci = db.cls(cq)
+        init = db.method(ci, '__init__')
+        memos = [t.attr for st in (init.node.body if init else []) if isinstance(st, ast.Assign) and isinstance(st.value, ast.Dict) and not st.value.keys
+                 for t in st.targets if isinstance(t, ast.Attribute)]
+        if not memos:
+            raise AnalysisError('%s: no memo dicts found in __init__' % cq)
+        for meth, params in meths:
+            fi = db.method(ci, meth)
+            if fi is None:
+                raise AnalysisError('%s.%s not found' % (cq, meth))
+            if tuple(fi.params[1:1 + len(params)]) != params:
+                raise AnalysisError('%s: parameters are %s, expected %s' % (fi.qual, fi.params[1:], list(params)))
+            dom = DepDomain()
+            it = Interp(db, dom)
+            records, problems = memo_audit(db, it, dom, ci, fi, lambda: {p: dom.atom(p) for p in params}, memo_attrs=memos)
+            if not records:
+                raise AnalysisError('%s: no memo store was reached on any path' % fi.qual)
+            unknown = [t for k, t in problems if k == 'unknown']
+            if unknown:
+                raise AnalysisError('%s: %s' % (fi.qual, unknown[0]))
+            inc = sorted({t for k, t in problems if k == 'incomplete'})
+            run.check(not inc, 'C01.cache', fi.qual, 'memo keys', 'everything stored in %s (and every test taken while filling) depends only on inputs the key determines [%d stores on %d paths]'
+                      % ('/'.join('self.' + m for m in memos), len(records), len({tuple(map(tuple, r[4])) for r in records})),
+                      '%s: two calls that differ only in that input share one cached entry (or the key holds a rounded/combined version of it), so the result depends on which call came first'
+                      % '; '.join(inc), fi.loc())
+            ke = sorted({t for k, t in problems if k == 'keyerror'})
+            run.check(not ke, 'C01.cache', fi.qual, 'memo reads', 'every memo read uses a key that was stored', '; '.join(ke)[:300], fi.loc())
+            ip = sorted({t for k, t in problems if k == 'inplace'})
+            run.check(not ip, 'C01.cache', fi.qual, 'cached arrays', 'no array held by a memo is operated on in place',
+                      '%s: later calls with the same key see the modified array' % '; '.join(ip), fi.loc())
+        clr = db.method(ci, 'clear')
+        cleared = {t.attr for st in clr.node.body if isinstance(st, ast.Assign) for t in st.targets if isinstance(t, ast.Attribute)} if clr else set()
+        cleared |= {n.func.value.attr for n in (ast.walk(clr.node) if clr else []) if isinstance(n, ast.Call) and isinstance(n.func, ast.Attribute) and n.func.attr == 'clear'
+                    and isinstance(n.func.value, ast.Attribute)}
+        run.check(set(memos) <= cleared, 'C01.cache', ci.qual + '.clear', 'clear', 'clear() resets every memo', 'clear() leaves %s populated' % sorted(set(memos) - cleared), clr.loc() if clr else '')
 
 
 def fresh_rules(run, db, rule='C01.cache'):
